@@ -499,6 +499,11 @@ def _build(spec):
         def noise(n, seed):
             return np.asarray(call(seed, n), dtype=float)
         meta['col_set'] = list(range(n_top)) + list(range(post.n_parameters() - n_eps, post.n_parameters()))
+        # the simulated individuals (bottom level) depend on the top-level draws and on each other, but not on the
+        # noise realisations
+        meta['cross'] = (list(range(n_top, post.n_parameters() - n_eps)),
+                         list(range(post.n_parameters() - n_eps, post.n_parameters())))
+        meta['cross_names'] = ('bottom-level (simulated individuals)', 'noise (epsilon)')
         return call, noise, meta
     raise ValueError(entry)
 
@@ -808,6 +813,19 @@ def check(case):
                 p, d = stats.corr_scores(E[:, a], E[:, b])
                 out[('indep_cols:' + entry, a, b)] = (p, 'corr', 'noise columns %d and %d of %d (outputs / time points '
                                                                  '/ dimensions): %s' % (a, b, c, d))
+            if meta['cols'] and len(cols) >= 3:
+                pv, d, _ = stats.corr_max(E, cols)
+                if pv is not None:
+                    out[('indep_cols:' + entry, 'all')] = (pv, 'corr', 'all pairs of the %d independent noise columns: %s'
+                                                           % (len(cols), d))
+            if meta.get('cross'):
+                # two blocks whose columns are pairwise independent ACROSS the blocks (not within the first one)
+                ca, cb = meta['cross']
+                pv, d, _ = stats.corr_max(E, ca, cb)
+                if pv is not None:
+                    out[('indep_cols:' + entry, 'cross')] = (pv, 'corr', '%s vs %s columns: %s' % (
+                        meta.get('cross_names', ('first block', 'second block'))[0],
+                        meta.get('cross_names', ('first block', 'second block'))[1], d))
             allc = [j for j in range(c) if np.ptp(E[:, j]) > 0]
             pick = sorted(set([allc[0], allc[len(allc) // 2], allc[-1]])) if allc else []
             if meta.get('continuous'):
